@@ -68,7 +68,7 @@ void WorldQ::setup() {
   const Json &cf = plan->knobs["conf"];
   k->put_file(home + "/control/me", "sim.example\n");
   std::string loc = cf.has("locals") ? lines(cf["locals"]) : std::string("l.example\nsim.example\n");
-  k->put_file(home + "/control/locals", loc);
+  if (!cf.getb("no_locals", false)) k->put_file(home + "/control/locals", loc);   // (no such file: the host's own name, control/me, is the one local domain)
   if (cf.has("virtualdomains")) k->put_file(home + "/control/virtualdomains", lines(cf["virtualdomains"]));
   if (cf.has("percenthack")) k->put_file(home + "/control/percenthack", lines(cf["percenthack"]));
   for (const char *f : {"envnoathost", "bouncefrom", "bouncehost", "doublebounceto", "doublebouncehost"})
